@@ -591,7 +591,10 @@ def run(ctx, R, R2):
                 # Some(0) exactly when the node's single input byte equals the probe byte
                 d = [x for x in p.decisions if x[2][0] == 'bin' and x[2][1] in ('Eq', 'Ne', 'Lt', 'Le', 'Gt', 'Ge') and any(is_call(y, '::input') for y in walk(x[2])) and any(y[0] == 'param' and param_role(y) == 'B' for y in walk(x[2]))]
                 if not d:
-                    seen.setdefault(form, []).append(None)
+                    hit = rv[0] == 'agg' and rv[1].endswith('::Some')
+                    # a hit that was not decided by comparing the node's own (decoded) input byte with the probe byte is not
+                    # justified by anything this rule can see; a miss without such a comparison is merely unrecognised
+                    seen.setdefault(form, []).append(False if hit else None)
                     continue
                 if d[-1][2][1] not in ('Eq', 'Ne'):
                     seen.setdefault(form, []).append(False)       # an ordering test where equality is required
@@ -606,6 +609,8 @@ def run(ctx, R, R2):
                 seen.setdefault(form, []).append(rv[0] == 'agg' and rv[1].endswith('::None'))
         for form in ('OneTransNext', 'OneTrans', 'AnyTrans', 'EmptyFinal'):
             v = seen.get(form)
+            if v and any(x is False for x in v):
+                v = [x for x in v if x is not None]
             if not v or any(x is None for x in v):
                 ctx.undecided(R2, 'find_input:' + form, 'the %s arm of Node::find_input was not recognised' % form, fn=f)
             else:
